@@ -16,7 +16,7 @@ THEOREMS = ["source_chains_are_escapers", "source_sq_is_esc_sq", "source_dq_is_e
 ALPHABET = ["'", '"', "\\", "$", "`", " ", "\n", "*", "a"]
 
 # placements: how a string is embedded into the converter's input
-PLACEMENTS = ["env_value", "flag_value", "flag_list_item", "exec_command", "exec_arg", "exec_env_value"]
+PLACEMENTS = ["env_value", "flag_value", "flag_list_item", "flag_list_nested", "exec_command", "exec_arg", "exec_env_value"]
 
 
 def embed(pl, s):
@@ -28,6 +28,10 @@ def embed(pl, s):
         return "flags", ("t", [("first", ("i", 1)), ("val", S), ("z", ("b", True))])
     if pl == "flag_list_item":
         return "flags", ("t", [("item", ("l", [("s", "p"), S, ("i", 3)])), ("z", ("s", "end"))])
+    if pl == "flag_list_nested":
+        # a list flag whose list also holds a list and a tuple: those items have no flag form and are left out entirely
+        return "flags", ("t", [("item", ("l", [("s", "p"), ("l", [("s", "x"), ("s", "y")]), S, ("t", [("k", ("s", "v"))]), ("i", 3)])),
+                               ("z", ("s", "end"))])
     if pl == "exec_command":
         return "exec", ("t", [("command", S), ("args", ("l", [("s", "arg1")]))])
     if pl == "exec_arg":
@@ -45,6 +49,8 @@ def expected_words(pl, s):
     if pl == "flag_value":
         return {"words": ["--first", "1", "--val", s, "-z", "true"]}
     if pl == "flag_list_item":
+        return {"words": ["--item", "p", "--item", s, "--item", "3", "-z", "end"]}
+    if pl == "flag_list_nested":
         return {"words": ["--item", "p", "--item", s, "--item", "3", "-z", "end"]}
     if pl == "exec_command":
         return {"vars": [], "words": [s, "arg1"]}
